@@ -92,6 +92,111 @@ CLAIMED = {
              "modelled as optional '+' and decimal digits; extraction, driver, harness, differ.",
         technique="Coq proof over a model whose constants are translated from the source + per-process correspondence",
         ref="§7 C18"),
+
+    "C11": dict(
+        text="Coq theorems over the mirror of sys::mode for every entry kind, every mode and every clause list: a well-formed expression "
+             "yields exactly the fold of the documented clause semantics ([dfa]:[ugoa][-+=][rwx], comma-repeatable), a non-zero octal takes priority, "
+             "a symlink entry is never changed, bits 9 and above (file type) are kept by every clause, each permission bit of a clause that applies is "
+             "the documented function of target/who/op/perm, and a malformed first clause (bad target, empty who, missing permissions) is an error. "
+             "Tied at expression level by exhaustive streams through the cfg(rivia_verif) re-export of sys::mode, and at tree level by running every "
+             "chmod / chmod_b / chown / chown_b call of an alphabet (octal incl. 0 and special bits, symbolic incl. results of 000, malformed, follow x "
+             "recursion x dirs / files selectors) in every reachable tree of a bounded namespace: full pre/post state vs the mirror of _chmod / _chown, and "
+             "an independent Python statement of 'exactly the targeted entries get exactly the requested value, nothing else changes, error => no change'; "
+             "is_exec / is_readonly vs mode() over all 512 rwx values. Partial: 'exactly the targeted entries' for all trees is decided by the bounded "
+             "enumeration and the judge, not yet by a Coq theorem over the traversal; the Stdfs side runs under C02.",
+        note="Trusted: Coq kernel; hooks sys::verif::{sym_mode, memfs_entry, memfs_snapshot}; tools/walkspec.py + c_mem.py sym_spec as the independent "
+             "statement; KF-C11-octal-zero recorded; extraction, driver, harness, differ.",
+        technique="Coq proof (state machine = clause fold) + exhaustive expression correspondence + model-guided BFS judged on pre/post snapshots",
+        ref="§7 C11"),
+    "C03": dict(
+        text="Coq theorems over the mirror of the Memfs state (entries index, data index, per-directory name sets, cwd, root): the well-formedness "
+             "invariant WF (every non-root path has a parent that is a real directory and lists it; every listed name exists; exactly the regular "
+             "non-link files have data; every entry is stored under its own path; cwd and root absolute) holds initially and is preserved by every "
+             "step of every call other than move / copy / chmod / chown / mkfile_m, succeeding or failing, for all arguments (wf_step_nonmove, "
+             "wf_reachable by induction over histories); a boolean checker wf_b is proved sound for WF and is evaluated by the extracted model on "
+             "the implementation's own state snapshot after every history of a model-guided BFS over a bounded namespace and of random longer "
+             "histories, which is what covers move / copy / chmod / chown. Partial: preservation by move_p / copy / chmod / chown is judged on "
+             "snapshots (bounded enumeration), not yet proved.",
+        note="Trusted: Coq kernel; hook sys::verif::memfs_snapshot (read-only dump of the guarded state); HashSet/HashMap as finite sets/maps; "
+             "extraction, driver, harness, differ.",
+        technique="Coq proof (invariant by induction over operation histories, sound boolean checker) + snapshot judging on the implementation",
+        ref="§7 C03"),
+    "C08": dict(
+        text="Coq theorems over the mirror of the Entries iterator (explicit stack machine with fuel): no traversal panics, no yielded item is one the "
+             "dirs/files filter rejects, and the result does not depend on the descriptor cap. The mirror is compared with the real iterator on random "
+             "trees (links, cycles, dangling) x the cross-product of options, and every observed sequence is judged by an independent recursive "
+             "specification (tools/walkspec.py): exact multiset the options denote, each once, parents before contents (after with contents_first), "
+             "name order / kind grouping, LinkLooping, termination; listings are checked absolute, distinct, sorted, excluding the argument and agreeing "
+             "with is_dir/is_file. Partial: exactness, order and termination (fuel sufficiency) are decided by the judge on bounded trees, not yet by "
+             "theorems; 'identically on both backends' runs under C02.",
+        note="Trusted: Coq kernel; tools/walkspec.py as the specification of 'the entries the options denote'; sibling order of unsorted traversals "
+             "and of name ties is HashSet order and compared as a multiset; extraction, driver, harness, differ.",
+        technique="Coq proof (safety lemmas over the stack machine) + correspondence + independent specification as judge",
+        ref="§7 C08"),
+    "C06": dict(
+        text="Coq theorems over the Memfs mirror for every state, path and data: a successful write_all makes read_all return exactly the data "
+             "(whole content replaced), append_all makes it old ++ data (prefix unchanged), read_all returns the stored bytes, "
+             "read_lines(write_lines(ls)) = ls for non-empty terminator-free lines with exactly one newline per line (over the UTF-8 / lines model), "
+             "and writing one path leaves every other path's content unchanged. Tied by byte strings (empty, multi-byte, invalid UTF-8, CRLF, 2 KiB) x every "
+             "reachable tree x all write/append/line helpers and reads, handle-based write/append histories, and interleavings over three files with "
+             "copies and moves (no aliasing), all compared with the mirror and judged by content laws on the implementation's snapshots. Handle "
+             "semantics themselves are C07's theorems.",
+        note="Trusted: Coq kernel; Base/Utf8.v model of str::from_utf8 / lines() validated by its own streams; extraction, driver, harness, differ.",
+        technique="Coq proof (map lemmas over the data index) + exhaustive correspondence + laws on snapshots",
+        ref="§7 C06"),
+    "C09": dict(
+        text="Coq theorems over the mirror of move_p: its validation phase is complete (every documented failure is detected before the first "
+             "mutation: move_validation_complete), a failed validation returns the state unchanged (move_validation_frame), and a passed validation "
+             "establishes the facts the relocation loop relies on. copy and the relocation loop are mirrored and compared with the real code on every "
+             "reachable tree of a bounded namespace x every ordered pair of paths x Copier options; the statement's clauses (source untouched, "
+             "independent copy at the same relative paths with kind / content / target / mode, existing entries kept, nothing outside the destination "
+             "changes; move: source gone, destination equals former subtree; failed move_p changes nothing) are evaluated on the implementation's "
+             "pre/post snapshots. Partial: the copy / relocation postconditions are judged on the bounded enumeration, not yet proved for all trees.",
+        note="Trusted: Coq kernel; tools/frames.py as the executable statement of the clauses; after a copy that follows links the state is "
+             "compared up to HashSet order; extraction, driver, harness, differ.",
+        technique="Coq proof (validation completeness and frame) + model-guided BFS judged on pre/post snapshots",
+        ref="§7 C09"),
+    "C12": dict(
+        text="Coq theorems: every call of the Memfs mirror, for every state and every argument, returns a value or an error and never the Panic "
+             "outcome (step_no_panic), and the pure helpers are total (C14/C15/C19 theorems). Tied by adversarial arguments (empty, ~, $, //, 50-deep "
+             "'..' chains, 2-/3-/4-byte characters at slicing offsets, 300-character names, 60-deep paths) into every Memfs method under catch_unwind, "
+             "each followed by a probe call showing the instance is still usable and its lock not poisoned. Partial: 'bounded time' is carried by "
+             "explicit fuel in the mirror (an OutOfFuel outcome would be a mismatch) and a wall-clock limit in the harness; fuel sufficiency is not "
+             "yet a theorem.",
+        note="Trusted: Coq kernel; the mirror's Panic outcome marks every unwrap / index / slice of the modelled functions (hand-written, tied by "
+             "the correspondence); extraction, driver, harness, differ.",
+        technique="Coq proof (no Panic outcome by case analysis over every operation) + adversarial correspondence under catch_unwind",
+        ref="§7 C12"),
+    "C01": dict(
+        text="The Memfs mirror (State / Ops / Walk / WalkOps / Step) is an executable tree-filesystem model written from the trait documentation and "
+             "the code; theorems proved over it: WF preservation (C03), content laws (C06), link laws (C10), failed move_p frame (C09), no panic (C12). "
+             "The mirror is compared with the real Memfs on a model-guided BFS of every reachable state of a bounded namespace x the full call alphabet "
+             "(absolute, relative, unclean spellings) and on random histories: every call's value / error kind and the complete resulting state. 'A "
+             "failed single-target call leaves the tree exactly as it was' is evaluated on the implementation's pre/post snapshots for every such call. "
+             "Partial: refinement of the mirror to a separately written minimal reference tree is not yet proved; the reference role is played by the "
+             "mirror plus the independent judges (frames.py, walkspec.py).",
+        note="Trusted: Coq kernel; hook memfs_snapshot; extraction, driver, harness, differ.",
+        technique="Executable Coq model + theorems over it + model-guided BFS correspondence on full state",
+        ref="§7 C01"),
+    "C20": dict(
+        text="Coq theorems over mirrors of the assert_vfs_* macros for every state, environment and argument: each checking macro passes iff its "
+             "predicate holds, never changes the state, and names itself when it panics; each acting macro that passes establishes its postcondition. "
+             "Tied by expanding the real macros under catch_unwind in every reachable state of a bounded namespace x every path x matching and "
+             "non-matching expected values, comparing pass / panic and the macro named in the message. Partial: the Stdfs side runs under C02; the "
+             "message's path is checked by the harness, not modelled.",
+        note="Trusted: Coq kernel; macro mirrors hand-written from src/testing.rs (tied by the correspondence); extraction, driver, harness, differ.",
+        technique="Coq proof (iff per macro) + exhaustive correspondence under catch_unwind",
+        ref="§7 C20"),
+    "C10": dict(
+        text="Coq theorems over the Memfs mirror: follow(true) swaps path and alt exactly once, is_dir / is_file exclude links, readlink on a non-link "
+             "fails; with C16's relative_navigates for the stored relative target. Tied by (link position, target position) pairs in trees up to depth 4, "
+             "absolute and relative spelling, target absent / file / dir / link; the statement's clauses (readlink_abs = abs(target), "
+             "clean(dir(link)/readlink) = readlink_abs, readlink relative, link exclusion, is_symlink_dir / is_symlink_file) evaluated on the "
+             "implementation's results; remove / chmod / chown without follow judged on pre/post snapshots to leave the target untouched. "
+             "KF-C10-self-dir recorded.",
+        note="Trusted: Coq kernel; posixpath.normpath as the lexical clean of absolute paths in the judge; extraction, driver, harness, differ.",
+        technique="Coq proof (entry lemmas, C16 navigation) + exhaustive correspondence + clause evaluation on the implementation",
+        ref="§7 C10"),
 }
 
 NOT_APPLICABLE = {}
@@ -145,7 +250,7 @@ def main():
         f.write("\n")
 
 
-HOOK_COMMITS = []
+HOOK_COMMITS = ["2ee7af3", "0db74ba"]
 
 if __name__ == "__main__":
     main()
